@@ -45,20 +45,21 @@ Proof.
   injection H as -> ->.
   pose proof (overlap_slices_inv b ny nx L S E) as (_ & _ & _ & _ & HL & HS).
   split; [exact HL|]. split; [exact HS|].
-  intros. eapply overlap_slices_nonneg; eassumption.
+  intros. apply (overlap_slices_nonneg b ny nx L S); assumption.
 Qed.
 
-(* the photometry loop of the model branches on exactly this result *)
-Theorem gen_no_overlap_is_nan : forall b W data err mask,
-  fst (gen_get_overlap_slices (ixmin b) (ixmax b) (iymin b) (iymax b) (nrows data) (ncols data)) = None ->
-  photometry_one b W data err mask = NoOverlap.
+(* ApertureMask._get_overlap_cutouts (hence get_values, do_photometry, area_overlap of the model)
+   reports "no overlap" exactly when the regenerated function returns (None, None) *)
+Theorem gen_no_overlap_iff_no_cutout : forall b W ny nx mask,
+  fst (gen_get_overlap_slices (ixmin b) (ixmax b) (iymin b) (iymax b) ny nx) = None <->
+  get_overlap_cutouts b W ny nx mask = None.
 Proof.
-  intros * H. rewrite gen_get_overlap_slices_eq in H. unfold photometry_one.
-  destruct (overlap_slices b (nrows data) (ncols data)) as [[l s]|]; [discriminate|reflexivity].
+  intros. rewrite gen_get_overlap_slices_eq. unfold get_overlap_cutouts.
+  destruct (overlap_slices b ny nx) as [[l s]|]; cbn; split; intro H; try reflexivity; discriminate.
 Qed.
 
 Print Assumptions gen_get_overlap_slices_eq.
 Print Assumptions gen_bbox_shape_eq.
 Print Assumptions gen_overlap_slices_none.
 Print Assumptions gen_overlap_slices_some.
-Print Assumptions gen_no_overlap_is_nan.
+Print Assumptions gen_no_overlap_iff_no_cutout.
